@@ -5,3 +5,4 @@ import G3D.Props.C06
 #print axioms G3D.Props.C06.volume_reference_independent
 #print axioms G3D.Props.C06.pyramid_volume_term
 #print axioms G3D.Props.C06.centre_in_hull
+#print axioms G3D.Props.C06.heron_is_half_cross
